@@ -121,6 +121,25 @@ pub fn build_from_parts(ty: i32, input: &[(i32, Vec<V>)], use_new: bool) -> Shap
     }
 }
 
+/// The same shape with every measure replaced by `m` (rebuilt through the public
+/// constructors from its own parts; types without measures are returned unchanged).
+/// Workloads use it for the "all measures are NO_DATA / NaN / -inf" regimes, which random
+/// generation practically never produces for a whole shape.
+pub fn with_uniform_measure(s: &Shape, m: f64) -> Shape {
+    use crate::dump::Dump;
+    let d = s.d();
+    if !crate::gen::carries_m(d.ty) {
+        return clone_shape(s);
+    }
+    let input: Vec<(i32, Vec<V>)> = d
+        .parts
+        .iter()
+        .enumerate()
+        .map(|(i, p)| (d.kinds.get(i).copied().unwrap_or(0), p.iter().map(|v| [v[0], v[1], v[2], m.to_bits()]).collect()))
+        .collect();
+    build_from_parts(d.ty, &input, false)
+}
+
 pub fn write_one<W: Write + Seek>(w: &mut ShapeWriter<W>, s: &Shape) -> Result<(), Error> {
     with_concrete!(s, x => w.write_shape(x))
 }
